@@ -883,10 +883,16 @@ struct FailAfter {
     buf: Vec<u8>,
     limit: usize,
     msg: String,
-    /// the tap's log, and its length when bytes were first refused
+    /// the tap's log, and its length when bytes were first refused / when the writer first took fewer
+    /// bytes than offered (a correct caller comes back with the rest at once and is refused)
     log: Log,
     refused_at: Option<usize>,
+    short_at: Option<usize>,
 }
+
+/// `msg == "Z"`: a writer that is simply full (`&mut [u8]`, `Cursor` over a fixed buffer): `Ok(0)` for ever
+const ZERO_WRITER: &str = "Z";
+const WRITE_ZERO_MSG: &str = "failed to write whole buffer";
 impl Write for FailAfter {
     fn write(&mut self, b: &[u8]) -> io::Result<usize> {
         if b.is_empty() {
@@ -897,9 +903,15 @@ impl Write for FailAfter {
             if self.refused_at.is_none() {
                 self.refused_at = Some(self.log.borrow().len());
             }
+            if self.msg == ZERO_WRITER {
+                return Ok(0);
+            }
             return Err(io::Error::new(io::ErrorKind::BrokenPipe, self.msg.clone()));
         }
         let n = room.min(b.len());
+        if n < b.len() && self.short_at.is_none() {
+            self.short_at = Some(self.log.borrow().len());
+        }
         self.buf.extend_from_slice(&b[..n]);
         Ok(n)
     }
@@ -939,6 +951,119 @@ fn sorted(mut v: Vec<It>) -> Vec<It> {
     v.sort();
     v.dedup();
     v
+}
+
+/// The store seen through each of its access paths must be the same set as the full scan: after
+/// a faulted load "exactly the items before k" have to be visible to every query, not only to `triples()`.
+/// Returns the names of the views that disagree with the scan.
+fn graph_views<G: Graph>(g: &G, extra: &[u64]) -> Vec<String> {
+    use sophia_api::term::matcher::Any;
+    let scan = graph_items(g);
+    let mut vals: BTreeSet<u64> = scan.iter().map(|i| i.val()).collect();
+    vals.extend(extra.iter().copied());
+    let shape = |t: Vec<It>| sorted(t);
+    let mut bad = vec![];
+    let mut check = |name: &str, got: Vec<It>| {
+        if shape(got) != scan {
+            bad.push(name.to_string());
+        }
+    };
+    let items = |it: &mut dyn Iterator<Item = It>| it.collect::<Vec<It>>();
+    check("s__", items(&mut g.triples_matching([iri("x:s")], Any, Any).filter_map(|t| t.ok()).filter_map(|t| val_term(t.o()).map(It::T))));
+    check("_p_", items(&mut g.triples_matching(Any, [iri("x:p")], Any).filter_map(|t| t.ok()).filter_map(|t| val_term(t.o()).map(It::T))));
+    check("sp_", items(&mut g.triples_matching([iri("x:s")], [iri("x:p")], Any).filter_map(|t| t.ok()).filter_map(|t| val_term(t.o()).map(It::T))));
+    let mut o = vec![];
+    let mut so = vec![];
+    let mut po = vec![];
+    let mut spo = vec![];
+    for n in &vals {
+        o.extend(g.triples_matching(Any, Any, [lit(*n)]).filter_map(|t| t.ok()).filter_map(|t| val_term(t.o()).map(It::T)));
+        so.extend(g.triples_matching([iri("x:s")], Any, [lit(*n)]).filter_map(|t| t.ok()).filter_map(|t| val_term(t.o()).map(It::T)));
+        po.extend(g.triples_matching(Any, [iri("x:p")], [lit(*n)]).filter_map(|t| t.ok()).filter_map(|t| val_term(t.o()).map(It::T)));
+        spo.extend(
+            g.triples_matching([iri("x:s")], [iri("x:p")], [lit(*n)]).filter_map(|t| t.ok()).filter_map(|t| val_term(t.o()).map(It::T)),
+        );
+    }
+    check("__o", o);
+    check("s_o", so);
+    check("_po", po);
+    check("spo", spo);
+    bad
+}
+
+fn dataset_views<D: Dataset>(d: &D, extra: &[It]) -> Vec<String> {
+    use sophia_api::term::matcher::Any;
+    let scan = dataset_items(d);
+    let mut vals: BTreeSet<u64> = scan.iter().map(|i| i.val()).collect();
+    let mut gs: BTreeSet<u64> = scan.iter().map(|i| if let It::Q(_, g) = i { *g } else { 0 }).collect();
+    for x in extra {
+        vals.insert(x.val());
+        if let It::Q(_, g) = x {
+            gs.insert(*g);
+        }
+    }
+    let gname = |g: u64| if g == 0 { None } else { Some(iri(&format!("x:g{}", g))) };
+    let dec = |q: &dyn Fn() -> Option<It>| q();
+    let _ = &dec;
+    let mut bad = vec![];
+    let mut check = |name: &str, got: Vec<It>| {
+        if sorted(got) != scan {
+            bad.push(name.to_string());
+        }
+    };
+    macro_rules! view {
+        ($s:expr, $p:expr, $o:expr, $g:expr) => {
+            d.quads_matching($s, $p, $o, $g)
+                .filter_map(|q| q.ok())
+                .filter_map(|q| val_term(q.o()).map(|n| It::Q(n, g_q(&q))))
+                .collect::<Vec<It>>()
+        };
+    }
+    check("s___", view!([iri("x:s")], Any, Any, Any));
+    check("_p__", view!(Any, [iri("x:p")], Any, Any));
+    check("sp__", view!([iri("x:s")], [iri("x:p")], Any, Any));
+    let (mut o, mut so, mut po, mut g_, mut sg, mut pg, mut og, mut spog) = (vec![], vec![], vec![], vec![], vec![], vec![], vec![], vec![]);
+    for n in &vals {
+        o.extend(view!(Any, Any, [lit(*n)], Any));
+        so.extend(view!([iri("x:s")], Any, [lit(*n)], Any));
+        po.extend(view!(Any, [iri("x:p")], [lit(*n)], Any));
+    }
+    for g in &gs {
+        g_.extend(view!(Any, Any, Any, [gname(*g)]));
+        sg.extend(view!([iri("x:s")], Any, Any, [gname(*g)]));
+        pg.extend(view!(Any, [iri("x:p")], Any, [gname(*g)]));
+        for n in &vals {
+            og.extend(view!(Any, Any, [lit(*n)], [gname(*g)]));
+            spog.extend(view!([iri("x:s")], [iri("x:p")], [lit(*n)], [gname(*g)]));
+        }
+    }
+    check("__o_", o);
+    check("s_o_", so);
+    check("_po_", po);
+    check("___g", g_);
+    check("s__g", sg);
+    check("_p_g", pg);
+    check("__og", og);
+    check("spog", spog);
+    bad
+}
+
+fn fin_graph<G: Graph>(g: &G, log: &Log, pre: &[It], notes: &mut Vec<String>) -> String {
+    let mut extra: Vec<u64> = pre.iter().map(|i| i.val()).collect();
+    extra.extend(log.borrow().iter().map(|i| i.val()));
+    for v in graph_views(g, &extra) {
+        notes.push(format!("index_{}", v));
+    }
+    render_items(&graph_items(g))
+}
+
+fn fin_dataset<D: Dataset>(d: &D, log: &Log, pre: &[It], notes: &mut Vec<String>) -> String {
+    let mut extra: Vec<It> = pre.to_vec();
+    extra.extend(log.borrow().iter().copied());
+    for v in dataset_views(d, &extra) {
+        notes.push(format!("index_{}", v));
+    }
+    render_items(&dataset_items(d))
 }
 
 fn graph_items<G: Graph>(g: &G) -> Vec<It> {
@@ -1149,7 +1274,7 @@ where
         Cons::Hs => {
             let r: StreamResult<HashSet<T3>, S::Error, Infallible> = src.collect_triples();
             let fin = match &r {
-                Ok(g) => render_items(&graph_items(g)),
+                Ok(g) => fin_graph(g, &log, &[], &mut notes),
                 Err(_) => "-".into(),
             };
             (ret_of(&r, |_| "infallible".into()), None, None, fin)
@@ -1157,7 +1282,7 @@ where
         Cons::Bs => {
             let r: StreamResult<BTreeSet<T3>, S::Error, Infallible> = src.collect_triples();
             let fin = match &r {
-                Ok(g) => render_items(&graph_items(g)),
+                Ok(g) => fin_graph(g, &log, &[], &mut notes),
                 Err(_) => "-".into(),
             };
             (ret_of(&r, |_| "infallible".into()), None, None, fin)
@@ -1165,7 +1290,7 @@ where
         Cons::Lg => {
             let r: StreamResult<sophia_inmem::graph::LightGraph, _, _> = src.collect_triples();
             let fin = match &r {
-                Ok(g) => render_items(&graph_items(g)),
+                Ok(g) => fin_graph(g, &log, &[], &mut notes),
                 Err(_) => "-".into(),
             };
             (ret_of(&r, index_full), None, None, fin)
@@ -1173,7 +1298,7 @@ where
         Cons::Fg => {
             let r: StreamResult<sophia_inmem::graph::FastGraph, _, _> = src.collect_triples();
             let fin = match &r {
-                Ok(g) => render_items(&graph_items(g)),
+                Ok(g) => fin_graph(g, &log, &[], &mut notes),
                 Err(_) => "-".into(),
             };
             (ret_of(&r, index_full), None, None, fin)
@@ -1182,63 +1307,65 @@ where
             let mut g = sophia_inmem::graph::LightGraph::new();
             pre_t(&mut g, pre);
             let r = src.add_to_graph(&mut g);
-            (ret_of(&r, index_full), r.ok(), None, render_items(&graph_items(&g)))
+            (ret_of(&r, index_full), r.ok(), None, fin_graph(&g, &log, pre, &mut notes))
         }
         Cons::AddH(pre) => {
             let mut g: HashSet<T3> = HashSet::new();
             pre_t(&mut g, pre);
             let r = src.add_to_graph(&mut g);
-            (ret_of(&r, |_| "infallible".into()), r.ok(), None, render_items(&graph_items(&g)))
+            (ret_of(&r, |_| "infallible".into()), r.ok(), None, fin_graph(&g, &log, pre, &mut notes))
         }
         Cons::Ins(pre) => {
             let mut g = sophia_inmem::graph::FastGraph::new();
             pre_t(&mut g, pre);
             let r = g.insert_all(src);
-            (ret_of(&r, index_full), r.ok(), None, render_items(&graph_items(&g)))
+            (ret_of(&r, index_full), r.ok(), None, fin_graph(&g, &log, pre, &mut notes))
         }
         Cons::Rem(pre) => {
             let mut g = sophia_inmem::graph::LightGraph::new();
             pre_t(&mut g, pre);
             let r = g.remove_all(src);
-            (ret_of(&r, index_full), r.ok(), None, render_items(&graph_items(&g)))
+            (ret_of(&r, index_full), r.ok(), None, fin_graph(&g, &log, pre, &mut notes))
         }
         Cons::RemB(pre) => {
             let mut g: BTreeSet<T3> = BTreeSet::new();
             pre_t(&mut g, pre);
             let r = g.remove_all(src);
-            (ret_of(&r, |_| "infallible".into()), r.ok(), None, render_items(&graph_items(&g)))
+            (ret_of(&r, |_| "infallible".into()), r.ok(), None, fin_graph(&g, &log, pre, &mut notes))
         }
         Cons::Small(free, pre) => {
             let Some(mut g) = small_graph(*free, pre) else { return Obs::bad("small-uncalibrated") };
             let r = g.insert_all(src);
-            (ret_of(&r, index_full), r.ok(), None, render_items(&graph_items(&g)))
+            (ret_of(&r, index_full), r.ok(), None, fin_graph(&g, &log, pre, &mut notes))
         }
         Cons::Ser(limit, e) => {
-            let mut w = FailAfter { buf: vec![], limit: *limit, msg: e.clone(), log: log.clone(), refused_at: None };
+            let mut w = FailAfter { buf: vec![], limit: *limit, msg: e.clone(), log: log.clone(), refused_at: None, short_at: None };
             let ret = {
                 let mut ser = sophia_turtle::serializer::nt::NtSerializer::new(&mut w);
                 let r = ser.serialize_triples(src).map(|_| ());
-                ret_of(&r, |e| e.to_string())
+                ret_of(&r, |e| token(&e.to_string()))
             };
-            refused_at = w.refused_at;
+            // the first moment the writer could not take what it was offered
+            refused_at = w.short_at.or(w.refused_at);
             (ret, None, None, hex_bytes(&w.buf))
         }
         Cons::Rio(kind, limit, e, _) => {
-            let mut w = FailAfter { buf: vec![], limit: *limit, msg: e.clone(), log: log.clone(), refused_at: None };
+            let mut w = FailAfter { buf: vec![], limit: *limit, msg: e.clone(), log: log.clone(), refused_at: None, short_at: None };
             let ret = match kind {
                 RioKind::Ttl => {
                     let mut ser = sophia_turtle::serializer::turtle::TurtleSerializer::new(&mut w);
                     let r = ser.serialize_triples(src).map(|_| ());
-                    ret_of(&r, |e| e.to_string())
+                    ret_of(&r, |e| token(&e.to_string()))
                 }
                 RioKind::Xml => {
                     let mut ser = sophia_xml::serializer::RdfXmlSerializer::new(&mut w);
                     let r = ser.serialize_triples(src).map(|_| ());
-                    ret_of(&r, |e| e.to_string())
+                    ret_of(&r, |e| token(&e.to_string()))
                 }
                 RioKind::Trig => return Obs::bad("bad-consumer"),
             };
-            refused_at = w.refused_at;
+            // the first moment the writer could not take what it was offered
+            refused_at = w.short_at.or(w.refused_at);
             (ret, None, None, "-".to_string())
         }
     };
@@ -1344,7 +1471,7 @@ where
         Cons::Hs => {
             let r: StreamResult<HashSet<Q4>, S::Error, Infallible> = src.collect_quads();
             let fin = match &r {
-                Ok(g) => render_items(&dataset_items(g)),
+                Ok(g) => fin_dataset(g, &log, &[], &mut notes),
                 Err(_) => "-".into(),
             };
             (ret_of(&r, |_| "infallible".into()), None, None, fin)
@@ -1352,7 +1479,7 @@ where
         Cons::Bs => {
             let r: StreamResult<BTreeSet<Q4>, S::Error, Infallible> = src.collect_quads();
             let fin = match &r {
-                Ok(g) => render_items(&dataset_items(g)),
+                Ok(g) => fin_dataset(g, &log, &[], &mut notes),
                 Err(_) => "-".into(),
             };
             (ret_of(&r, |_| "infallible".into()), None, None, fin)
@@ -1360,7 +1487,7 @@ where
         Cons::Lg => {
             let r: StreamResult<sophia_inmem::dataset::LightDataset, _, _> = src.collect_quads();
             let fin = match &r {
-                Ok(g) => render_items(&dataset_items(g)),
+                Ok(g) => fin_dataset(g, &log, &[], &mut notes),
                 Err(_) => "-".into(),
             };
             (ret_of(&r, index_full), None, None, fin)
@@ -1368,7 +1495,7 @@ where
         Cons::Fg => {
             let r: StreamResult<sophia_inmem::dataset::FastDataset, _, _> = src.collect_quads();
             let fin = match &r {
-                Ok(g) => render_items(&dataset_items(g)),
+                Ok(g) => fin_dataset(g, &log, &[], &mut notes),
                 Err(_) => "-".into(),
             };
             (ret_of(&r, index_full), None, None, fin)
@@ -1377,54 +1504,56 @@ where
             let mut g = sophia_inmem::dataset::LightDataset::new();
             pre_q(&mut g, pre);
             let r = src.add_to_dataset(&mut g);
-            (ret_of(&r, index_full), r.ok(), None, render_items(&dataset_items(&g)))
+            (ret_of(&r, index_full), r.ok(), None, fin_dataset(&g, &log, pre, &mut notes))
         }
         Cons::AddH(pre) => {
             let mut g: HashSet<Q4> = HashSet::new();
             pre_q(&mut g, pre);
             let r = src.add_to_dataset(&mut g);
-            (ret_of(&r, |_| "infallible".into()), r.ok(), None, render_items(&dataset_items(&g)))
+            (ret_of(&r, |_| "infallible".into()), r.ok(), None, fin_dataset(&g, &log, pre, &mut notes))
         }
         Cons::Ins(pre) => {
             let mut g = sophia_inmem::dataset::FastDataset::new();
             pre_q(&mut g, pre);
             let r = g.insert_all(src);
-            (ret_of(&r, index_full), r.ok(), None, render_items(&dataset_items(&g)))
+            (ret_of(&r, index_full), r.ok(), None, fin_dataset(&g, &log, pre, &mut notes))
         }
         Cons::Rem(pre) => {
             let mut g = sophia_inmem::dataset::LightDataset::new();
             pre_q(&mut g, pre);
             let r = g.remove_all(src);
-            (ret_of(&r, index_full), r.ok(), None, render_items(&dataset_items(&g)))
+            (ret_of(&r, index_full), r.ok(), None, fin_dataset(&g, &log, pre, &mut notes))
         }
         Cons::RemB(pre) => {
             let mut g: BTreeSet<Q4> = BTreeSet::new();
             pre_q(&mut g, pre);
             let r = g.remove_all(src);
-            (ret_of(&r, |_| "infallible".into()), r.ok(), None, render_items(&dataset_items(&g)))
+            (ret_of(&r, |_| "infallible".into()), r.ok(), None, fin_dataset(&g, &log, pre, &mut notes))
         }
         Cons::Small(..) => return Obs::bad("small-needs-triples"),
         Cons::Ser(limit, e) => {
-            let mut w = FailAfter { buf: vec![], limit: *limit, msg: e.clone(), log: log.clone(), refused_at: None };
+            let mut w = FailAfter { buf: vec![], limit: *limit, msg: e.clone(), log: log.clone(), refused_at: None, short_at: None };
             let ret = {
                 let mut ser = sophia_turtle::serializer::nq::NqSerializer::new(&mut w);
                 let r = ser.serialize_quads(src).map(|_| ());
-                ret_of(&r, |e| e.to_string())
+                ret_of(&r, |e| token(&e.to_string()))
             };
-            refused_at = w.refused_at;
+            // the first moment the writer could not take what it was offered
+            refused_at = w.short_at.or(w.refused_at);
             (ret, None, None, hex_bytes(&w.buf))
         }
         Cons::Rio(kind, limit, e, _) => {
-            let mut w = FailAfter { buf: vec![], limit: *limit, msg: e.clone(), log: log.clone(), refused_at: None };
+            let mut w = FailAfter { buf: vec![], limit: *limit, msg: e.clone(), log: log.clone(), refused_at: None, short_at: None };
             let ret = match kind {
                 RioKind::Trig => {
                     let mut ser = sophia_turtle::serializer::trig::TrigSerializer::new(&mut w);
                     let r = ser.serialize_quads(src).map(|_| ());
-                    ret_of(&r, |e| e.to_string())
+                    ret_of(&r, |e| token(&e.to_string()))
                 }
                 _ => return Obs::bad("bad-consumer"),
             };
-            refused_at = w.refused_at;
+            // the first moment the writer could not take what it was offered
+            refused_at = w.short_at.or(w.refused_at);
             (ret, None, None, "-".to_string())
         }
     };
@@ -1925,7 +2054,8 @@ fn expect(src: &Src, chain: &[Adapter], cons: &Cons, obs: &Obs) -> Expect {
             // the writer refused bytes while the sink was working on item number `n` (or before any /
             // after all of them): the stream must have stopped right there, as a SinkError
             if let Some(n) = obs.refused_at {
-                sink_fail = Some((n.min(xs.len()), e.clone()));
+                let payload = if e == ZERO_WRITER { hex(WRITE_ZERO_MSG) } else { e.clone() };
+                sink_fail = Some((n.min(xs.len()), payload));
             }
         }
     }
@@ -2103,6 +2233,9 @@ pub fn exec(line: &str) -> String {
         if *fin != obs.fin {
             out += &format!(" FAIL.final=expected:{}", fin);
         }
+    }
+    if matches!(cons, Cons::Lg | Cons::Fg | Cons::Add(_) | Cons::Ins(_) | Cons::Rem(_) | Cons::Small(..)) {
+        out += if obs.notes.iter().any(|n| n.starts_with("index_")) { " idx=0" } else { " idx=1" };
     }
     for n in &obs.notes {
         out += &format!(" FAIL.{}=1", n);
@@ -2355,8 +2488,12 @@ fn gen_iter_sample(e: &mut Emit, len: usize, depth: usize, small_budget: &mut us
         limits.sort();
         limits.dedup();
         let src = no_fault(quads0, &items);
-        for l in limits {
+        for (i, l) in limits.into_iter().enumerate() {
             e.case(&src, &chain, &Cons::Ser(l, sink_payload.clone()), false, "", "sink.writer");
+            if i % 3 == 0 {
+                // a writer that is simply full: `Ok(0)` instead of an error
+                e.case(&src, &chain, &Cons::Ser(l, ZERO_WRITER.to_string()), false, "", "sink.writer_full");
+            }
         }
         if !items.is_empty() {
             let k = e.ctx.rng.range(0, items.len());
